@@ -39,7 +39,7 @@ fn rand_string(r: &mut Rng, max: usize) -> String {
     s
 }
 
-fn gen_children(r: &mut Rng, sink: &RcDom, parent: &Handle, depth: usize, budget: &mut usize) {
+fn gen_children(r: &mut Rng, sink: &RcDom, parent: &Handle, depth: usize, budget: &mut usize, scripting: bool) {
     let n = r.below(4);
     let mut last_text = false;
     for _ in 0..n {
@@ -55,7 +55,8 @@ fn gen_children(r: &mut Rng, sink: &RcDom, parent: &Handle, depth: usize, budget
             sink.append(parent, NodeOrText::AppendText(StrTendril::from_slice(&t)));
             last_text = true;
         } else {
-            let name = *r.pick(ORDINARY);
+            // with scripting disabled noscript is an ordinary element (its content is parsed and must be escaped)
+            let name = if !scripting && r.chance(1, 4) { "noscript" } else { *r.pick(ORDINARY) };
             let mut attrs = Vec::new();
             let names = ["id", "class", "title", "data-x", "a"];
             let k = r.below(3);
@@ -70,7 +71,7 @@ fn gen_children(r: &mut Rng, sink: &RcDom, parent: &Handle, depth: usize, budget
             let el = create_element(sink, QualName::new(None, markup5ever::ns!(html), LocalName::from(name)), attrs);
             sink.append(parent, NodeOrText::AppendNode(el.clone()));
             if depth < 3 {
-                gen_children(r, sink, &el, depth + 1, budget);
+                gen_children(r, sink, &el, depth + 1, budget, scripting);
             }
             last_text = false;
         }
@@ -95,21 +96,23 @@ fn tree_for_string(sink: &RcDom, root: &Handle, s: &str) {
 }
 
 fn roundtrip(r: &mut Rng, id: u64, out: &mut Out, fixed: Option<&str>) {
+    let scripting = fixed.is_some() || !r.chance(1, 3);
     let sink = RcDom::default();
     let root = create_element(&sink, ctx_name(), vec![]);
     let mut budget = 10;
     match fixed {
         Some(s) => tree_for_string(&sink, &root, s),
-        None => gen_children(r, &sink, &root, 0, &mut budget),
+        None => gen_children(r, &sink, &root, 0, &mut budget, scripting),
     }
     let t1 = Value::Array(root.children.borrow().iter().map(dump).collect());
-    match ser(&root, TraversalScope::ChildrenOnly(Some(ctx_name())), true) {
+    match ser(&root, TraversalScope::ChildrenOnly(Some(ctx_name())), scripting) {
         Ok(bytes) => {
             let r2 = catch(|| {
                 // the serialized text is a character string, not a byte stream: no byte order mark handling
                 let mut popts = ParseOpts::default();
                 popts.tokenizer.discard_bom = false;
-                let dom = parse_fragment(RcDom::default(), popts, ctx_name(), vec![], true).one(StrTendril::from_slice(&bytes));
+                popts.tree_builder.scripting_enabled = scripting;
+                let dom = parse_fragment(RcDom::default(), popts, ctx_name(), vec![], scripting).one(StrTendril::from_slice(&bytes));
                 // fragment result: document > html > children
                 let html = dom.document.children.borrow()[0].clone();
                 let v = Value::Array(html.children.borrow().iter().map(dump).collect());
@@ -153,7 +156,7 @@ fn inner_outer(h: &Handle, scripting: bool, id: u64, out: &mut Out, n: &mut usiz
 const DOCS: &[&str] = &[
     "<p>a&amp;b<b>c</b><br><img src=x><input value='\"'>", "<style>a<b>&amp;</style><script>if(a<b&&c>d){}</script>", "<title>t&amp;<x></title><textarea>\n&lt;</textarea>",
     "<svg><style>a<b</style><script>x&amp;y</script><title>q&lt;</title><foreignObject><p>z&amp;</p></foreignObject></svg>", "<math><mi>x&lt;</mi><annotation-xml><style>s<</style></annotation-xml></math>",
-    "<noscript>a<b>&amp;</b></noscript>", "<template><p>x&amp;y</p></template><xmp><b>&</xmp>", "<iframe><b>&</iframe><noembed><i>&</noembed><noframes><u>&</noframes>", "<plaintext><b>&",
+    "<noscript>a<b>&amp;</b></noscript>", "<noscript>a&amp;b &lt;i&gt;</noscript>", "<div><noscript>&lt;/noscript&gt;&lt;img&gt;</noscript></div>", "<template><p>x&amp;y</p></template><xmp><b>&</xmp>", "<iframe><b>&</iframe><noembed><i>&</noembed><noframes><u>&</noframes>", "<plaintext><b>&",
     "<table><tr><td>a&nbsp;b<col></table>", "<pre>\n\nx</pre><listing>\ny</listing><div title=\"a&amp;b &lt; &gt; &quot; \u{a0} \u{a9}\">\u{a9}\u{a0}\u{e9}\u{80}</div>", "<select><option>o&amp;</select><a href=\"?a=1&b=2\">l</a>",
     "<svg xlink:href=a xml:lang=b xmlns:xlink=c><a xlink:href='\"'/></svg>", "<div><!--c--><?pi?><![CDATA[x]]></div>", "<body a=b><frameset>", "<head><meta charset=x><link><base><script></script></head>",
 ];
